@@ -185,8 +185,23 @@ def weave(src, spec):
     mask = _scan_code_mask(src)
     inserts = []  # (offset, text)
     info = {"loops": [], "functions": []}
+    def locate(fn):
+        """A function named in the weave spec that is no longer in the source (renamed, merged, removed) gets
+        nothing woven and is reported in info["missing_functions"]: units that enforce or replace it cannot be
+        built and stay undecided, the other units of the module are still decided.  A function that EXISTS
+        with a different number of loops is still an extraction break (a loop contract must never be dropped
+        silently)."""
+        try:
+            return find_function(src, mask, fn)
+        except WeaveError:
+            info.setdefault("missing_functions", []).append(fn)
+            return None
+
     for fn, entries in spec.get("loops", {}).items():
-        b_open, b_close = find_function(src, mask, fn)
+        loc = locate(fn)
+        if loc is None:
+            continue
+        b_open, b_close = loc
         loops = find_loops(src, mask, b_open, b_close)
         if len(loops) != len(entries):
             raise WeaveError(
@@ -200,10 +215,16 @@ def weave(src, spec):
                 continue
             inserts.append((off, "%s %s %s" % (MARK_L, clause_text(e), MARK_R)))
     for fn, stmt in spec.get("entry", {}).items():
-        b_open, b_close = find_function(src, mask, fn)
+        loc = locate(fn)
+        if loc is None:
+            continue
+        b_open, b_close = loc
         inserts.append((b_open + 1, "%s %s %s" % (MARK_L, stmt, MARK_R)))
     for fn, stmt in spec.get("before_return", {}).items():
-        b_open, b_close = find_function(src, mask, fn)
+        loc = locate(fn)
+        if loc is None:
+            continue
+        b_open, b_close = loc
         rets = find_returns(src, mask, b_open, b_close)
         if not rets:
             raise WeaveError("function %s: no return found (must-fire)" % fn)
